@@ -1,7 +1,9 @@
 package main
 
 import (
+	"fmt"
 	"path/filepath"
+	"strings"
 )
 
 type Item struct {
@@ -59,10 +61,29 @@ var builtinCorpus = []Item{
 	{Name: "nest-12", Src: "find all " + nestParens("'a' 'b'", 12), Text: "ab abab"},
 	{Name: "nest-18", Src: "find all " + nestParens("'a'", 18) + " 'b'", Text: "ab abab"},
 	{Name: "nest-seq-14", Src: "find all " + nestSeq(14), Text: "aaaaaaaaaaaaaaab"},
+	// sources larger than a read buffer: long tokens and many commands
+	{Name: "big-many-commands", Src: strings.Repeat("find all 'abc' digit\nfind top 2 letter 'x'\n", 220), Text: "abc1 qx abc2", Tags: []string{"big"}},
+	{Name: "big-string-literal", Src: "find all '" + strings.Repeat("xy", 3000) + "' or 'k'", Text: "k xyxy k", Tags: []string{"big"}},
+	{Name: "big-line-comment", Src: "-- " + strings.Repeat("c", 9000) + "\nfind all 'a'", Text: "banana", Tags: []string{"big"}},
+	{Name: "big-block-comment", Src: "--(" + strings.Repeat("c )- ", 1800) + ")--\nfind all 'a' --( tail )--", Text: "banana", Tags: []string{"big"}},
+	{Name: "big-identifier", Src: "find all (digit = " + strings.Repeat("v", 5000) + ") " + strings.Repeat("v", 5000), Text: "11 12 22", Tags: []string{"big"}},
+	{Name: "big-regex-literal", Src: "find all @/" + strings.Repeat("ab", 2300) + "|k/", Text: "k ab k", Tags: []string{"big"}},
+	{Name: "big-in-list", Src: "find all at least 1 in " + bigInList(600), Text: "a1 zz 99", Tags: []string{"big"}},
 	{Name: "err-undefined", Src: "find all nope", Text: "x"},
 	{Name: "err-parse", Src: "find all at least", Text: "x"},
 	{Name: "err-lex", Src: "find all 'unterminated", Text: "x"},
 	{Name: "err-type", Src: "set f to transform\n  return 1 == 1\nend\nreplace all 'a' with f", Text: "a"},
+}
+
+func bigInList(n int) string {
+	var sb strings.Builder
+	for i := 0; i < n; i++ {
+		if i > 0 {
+			sb.WriteString(", ")
+		}
+		fmt.Fprintf(&sb, "'%c%c'", 'a'+i%26, '0'+i%10)
+	}
+	return sb.String()
 }
 
 func nestParens(inner string, depth int) string {
